@@ -28,7 +28,7 @@ package db
 //@ smt all (declare-ghost bk_set_on Iface)
 //@ smt all (declare-ghost bk_set_key Slice)
 //@ smt all (declare-ghost bk_set_val Slice)
-//@ smt all (declare-ghost bk_set_n Int)
+//@ smt all (declare-ghost bk_set_n IDX)
 //@ func (b Bucket) Set(key, value) (err)
 //@   iface
 //@   trusted
